@@ -202,6 +202,9 @@ def run_case(cmd, timeout=120, env=None, tag=None, stdin=None):
     e.update(SAN_ENV)
     if env:
         e.update(env)
+    fill = e.pop("VERIF_MALLOC_FILL", None)
+    if fill:   # hostile pattern in fresh heap memory (ASan fills with 0xbe by default, whose low bit is clear): a field the code forgets to set reads as all-ones
+        e["ASAN_OPTIONS"] += ":malloc_fill_byte=%s:max_malloc_fill_size=1048576" % fill
     e["VERIF_BACKSTOP"] = str(int(timeout) + 20)   # engines arm alarm() with it: no orphan outlives its driver
     t0 = time.time()
     try:
